@@ -63,7 +63,7 @@ func precondFacts(fn *ssa.Function) []an.Fact {
 		fmt.Sscanf(strings.ReplaceAll(pc, "len(", ""), "%s >= %d", &name, &k)
 		name = strings.TrimSuffix(name, ")")
 		if i < len(fn.Params) {
-			name = fn.Params[i].Name()
+			name = an.Render(fn.Params[i])
 		}
 		l := an.LForm{C: map[string]int64{"len(" + name + ")": 1}, K: -k}
 		out = append(out, an.Fact{L: l, Why: "precondition " + pc + " (proved at every call site)"})
@@ -415,7 +415,7 @@ func isBoundsException(fn *ssa.Function, in ssa.Instruction) bool {
 	if !ok || an.NameOf(fn) != "validateRaw" || sl.Low != nil || sl.High == nil {
 		return false
 	}
-	if p, ok := sl.X.(*ssa.Parameter); !ok || p.Name() != "d" {
+	if p, ok := sl.X.(*ssa.Parameter); !ok || an.Render(p) != "d" {
 		return false
 	}
 	// premise: on every way to the slice the BodyLength value was tested not null (in the function or in a helper it calls)
@@ -532,7 +532,7 @@ func proveLenInvariant(c *core.Ctx, fn *ssa.Function, heads map[*ssa.BasicBlock]
 	if phi == nil {
 		return nil, "no loop-carried slice that starts as the first parameter found"
 	}
-	name := "len(" + phi.Comment + ")"
+	name := "len(" + an.Render(phi) + ")"
 	invFact := an.Fact{L: an.LForm{C: map[string]int64{name: 1}, K: -1}, Why: "loop invariant len(line) ≥ 1 (proved by induction)"}
 	head := phi.Block()
 	for i, pred := range head.Preds {
